@@ -977,6 +977,8 @@ func W1Len(sink Sink) {
 		{`"`, "a", `"`}, {`"`, `\n`, `"`}, {`"x`, "\xc3\xa9", `"`}, {`"`, `\u00e9`, `"`},
 		{"", " ", "1"}, {"[1", " ", "]"}, {"[", "\n", "1]"}, {`{"a"`, "\t", ":1}"},
 		{"[", "0,", "0]"}, {"[", "[],", "[]]"}, {"{", `"k":1,`, `"z":0}`},
+		// key lengths (seeded change C10r8-m2: a per-length key cache with 64 slots and a guard of '> 64')
+		{`{"`, "k", `":1}`}, {`{"a":1,"`, "k", `":[2]}`}, {`{"\t`, "k", `":1}`},
 	}
 	var lens []int
 	for L := 1; L <= 600; L++ {
